@@ -309,7 +309,24 @@ def rule_geometry_step_is_the_better_candidate(eng, rep, rule="C13-7.geometry-st
         fi = eng.fn(fid)
         cfg = eng.cfg(fi)
         cpar, gpar = fi.posparams[1], fi.posparams[2]
-        sign = {}       # candidate name -> {+1, -1} over all its definitions
+        sign = {}       # candidate name -> {(+1 | -1, base direction)} over all its definitions
+        calltext = {}   # candidate name -> texts of the solver calls that define it
+        gdirs = set()   # locals every definition of which is +g or -g (possibly chosen by the data)
+
+        def pm_g(e):
+            if isinstance(e, ast.IfExp):
+                return pm_g(e.body) and pm_g(e.orelse)
+            if isinstance(e, ast.UnaryOp) and isinstance(e.op, ast.USub):
+                e = e.operand
+            return isinstance(e, ast.Name) and e.id == gpar
+        defs_by_name = {}
+        for n, d in cfg.g.nodes(data=True):
+            st = d["ast"]
+            if d["kind"] == "stmt" and isinstance(st, ast.Assign) and len(st.targets) == 1 and isinstance(st.targets[0], ast.Name):
+                defs_by_name.setdefault(st.targets[0].id, []).append(st.value)
+        for nm, vals in defs_by_name.items():
+            if nm != gpar and all(pm_g(v) for v in vals) and any(isinstance(v, ast.IfExp) for v in vals):
+                gdirs.add(nm)
         for n, d in cfg.g.nodes(data=True):
             st = d["ast"]
             if d["kind"] == "stmt" and isinstance(st, ast.Assign) and len(st.targets) == 1 and isinstance(st.targets[0], ast.Name) and isinstance(st.value, ast.Call):
@@ -317,12 +334,18 @@ def rule_geometry_step_is_the_better_candidate(eng, rep, rule="C13-7.geometry-st
                 if ci and any(t.fid in solvers for t in ci.targets):
                     sg = None
                     for a in list(st.value.args) + [k.value for k in st.value.keywords]:
-                        a2 = expand_locals(cfg, st, a)
-                        if isinstance(a2, ast.Name) and a2.id == gpar:
-                            sg = +1
-                        elif isinstance(a2, ast.UnaryOp) and isinstance(a2.op, ast.USub) and isinstance(a2.operand, ast.Name) and a2.operand.id == gpar:
-                            sg = -1
+                        # the linear term the candidate was computed for: +g / -g, or +/- a local direction (`gs = g if c <= 0 else -g`): (sign, base)
+                        for a2 in (a, expand_locals(cfg, st, a)):
+                            if isinstance(a2, ast.Name) and (a2.id == gpar or a2.id in gdirs):
+                                sg = (+1, a2.id)
+                            elif isinstance(a2, ast.UnaryOp) and isinstance(a2.op, ast.USub) and isinstance(a2.operand, ast.Name) and (a2.operand.id == gpar or a2.operand.id in gdirs):
+                                sg = (-1, a2.operand.id)
+                            if sg is not None:
+                                break
+                        if sg is not None:
+                            break
                     sign.setdefault(st.targets[0].id, set()).add(sg)
+                    calltext.setdefault(st.targets[0].id, set()).add(ekey(st.value))
 
         def candidate_of(e, at):
             """name of the candidate S if e == |c + g.S| (temporaries looked through), else None"""
@@ -343,43 +366,149 @@ def rule_geometry_step_is_the_better_candidate(eng, rep, rule="C13-7.geometry-st
             st = d["ast"]
             if d["kind"] != "stmt" or not isinstance(st, ast.Return) or st.value is None:
                 continue
-            nret += 1
-            site = eng.where(fi, st)
-            v = st.value
-            names = [x.id for x in ast.walk(v) if isinstance(x, ast.Name) and x.id in sign]
-            if len(names) != 1:
-                rep.unknown(rule, site, "`%s`: cannot tell which candidate is returned" % short(st, 50))
-                continue
-            S = names[0]
-            if sign[S] - {+1, -1} or len(sign[S]) != 1:
-                rep.unknown(rule, site, "candidate `%s` is not computed for exactly one of +%s / -%s" % (S, gpar, gpar))
-                continue
-            verdict = None
-            for (gn, a) in guards_of(cfg, n):
-                if a.op not in ("le", "lt") or a.rhs is None:
+            outer = [(cfg.ast_of(gn), a) for (gn, a) in guards_of(cfg, n)]
+            if isinstance(st.value, ast.IfExp):
+                # `return a if test else b`: two returns, each under its side of the test
+                cases = [(st.value.body, outer + [(st, atom_of(st.value.test, True))]), (st.value.orelse, outer + [(st, atom_of(st.value.test, False))])]
+            else:
+                cases = [(st.value, outer)]
+            for (v, guards) in cases:
+                nret += 1
+                site = eng.where(fi, st)
+                names = [x.id for x in ast.walk(v) if isinstance(x, ast.Name) and x.id in sign]
+                if len(names) != 1:
+                    rep.unknown(rule, site, "`%s`: cannot tell which candidate is returned" % short(st, 50))
                     continue
-                at = cfg.ast_of(gn)
-                small, large = candidate_of(a.lhs, at), candidate_of(a.rhs, at)
-                if small is None or large is None or small == large or small not in sign or large not in sign:
+                S = names[0]
+                if None in sign[S] or len(sign[S]) != 1:
+                    rep.unknown(rule, site, "candidate `%s` is not computed for exactly one of +%s / -%s" % (S, gpar, gpar))
                     continue
-                if sign[small] == sign[large]:
-                    rep.bad(rule, site, "%s|candidates-same-direction" % fid, "`%s` and `%s` are both computed for the same sign of %s: the other extreme of g's is never examined" % (small, large, gpar))
-                    verdict = False
+                verdict = None
+                for (at, a) in guards:
+                    if a.op not in ("le", "lt") or a.rhs is None:
+                        continue
+                    small, large = candidate_of(a.lhs, at), candidate_of(a.rhs, at)
+                    if small is None or large is None or small == large or small not in sign or large not in sign:
+                        continue
+                    if None in sign[small] or None in sign[large]:
+                        continue
+                    (sa, ba), (sb, bb) = list(sign[small])[0], list(sign[large])[0]
+                    if ba != bb:
+                        continue        # not comparable: different base directions
+                    if sa == sb:
+                        if len(calltext.get(small, set()) | calltext.get(large, set())) == 1:
+                            rep.bad(rule, site, "%s|candidates-same-direction" % fid, "`%s` and `%s` are both computed by the same call `%s`: the other extreme of g's is never examined"
+                                    % (small, large, sorted(calltext[small])[0][:60]))
+                            verdict = False
+                        else:
+                            rep.unknown(rule, site, "`%s` and `%s` are computed for the same sign of %s by calls that differ in another argument, which this rule cannot interpret" % (small, large, gpar))
+                            verdict = "unknown"
+                        break
+                    if S == large:
+                        verdict = True
+                    elif S == small:
+                        verdict = False
+                        rep.bad(rule, site, "%s|returns-the-smaller-candidate|%s" % (fid, S), "`%s` is returned where |%s + %s.%s| %s |%s + %s.%s|: the candidate with the smaller |L| is chosen"
+                                % (S, cpar, gpar, small, "<=" if a.op == "le" else "<", cpar, gpar, large))
                     break
-                if S == large:
-                    verdict = True
-                elif S == small:
-                    verdict = False
-                    rep.bad(rule, site, "%s|returns-the-smaller-candidate|%s" % (fid, S), "`%s` is returned where |%s + %s.%s| %s |%s + %s.%s|: the candidate with the smaller |L| is chosen"
-                            % (S, cpar, gpar, small, "<=" if a.op == "le" else "<", cpar, gpar, large))
-                break
-            if verdict is None:
-                rep.bad(rule, site, "%s|returned-without-comparison|%s" % (fid, S),
-                        "`%s` is handed back without being compared with the candidate for the opposite sign of %s: max |%s + %s.s| can be attained at either extreme (the region is not symmetric about the centre)"
-                        % (short(st, 40), gpar, cpar, gpar))
-            elif verdict:
-                rep.ok(rule, site, "`%s` (computed for %s%s) is returned on the larger side of the comparison of |%s + %s.s| at the two candidates" % (S, "+" if sign[S] == {1} else "-", gpar, cpar, gpar))
+                if verdict is None:
+                    rep.bad(rule, site, "%s|returned-without-comparison|%s" % (fid, S),
+                            "`%s` is handed back without being compared with the candidate for the opposite sign of %s: max |%s + %s.s| can be attained at either extreme (the region is not symmetric about the centre)"
+                            % (short(st, 40), gpar, cpar, gpar))
+                elif verdict is True:
+                    rep.ok(rule, site, "`%s` (computed for %s%s) is returned on the larger side of the comparison of |%s + %s.s| at the two candidates" % (S, "+" if list(sign[S])[0][0] == 1 else "-", list(sign[S])[0][1], cpar, gpar))
     rep.require_count(rule, "returns of the geometry-step routines", nret, 4)
+
+
+def rule_step_routines_do_not_modify_their_arguments(eng, rep, rule="C13-8.step-routines-do-not-modify-their-array-arguments"):
+    """The callers keep using what they pass in: trsbox_geometry evaluates |c + g.s| with the g it handed to the linear solver twice, the controller re-uses gopt, H, the
+    bounds and the base point after the step.  A routine that works on its parameter itself (`dirn = g` instead of `dirn = -g`, an in-place clamp of the bounds) changes
+    those values behind the caller's back.  For every step routine: no element store, augmented assignment, fill/sort or out= on a parameter or on a local that is a view
+    of one (plain binding, slice, .T, reshape, asarray, conditional expression of such)."""
+    funcs = ["trust_region.trsbox", "trust_region.trsbox_linear", "trust_region.trsbox_geometry", "trust_region.ctrsbox_geometry", "trust_region.ctrsbox_linear",
+             "trust_region.ctrsbox_pgd", "trust_region.ctrsbox_sfista", "trust_region.ball_step", "trust_region.d_within_bounds"]
+    VIEW_METHODS = ("reshape", "ravel", "view", "transpose", "squeeze", "swapaxes")
+
+    def roots(e):
+        """names the value of e may be a view of"""
+        if isinstance(e, ast.Name):
+            return {e.id}
+        if isinstance(e, ast.IfExp):
+            return roots(e.body) | roots(e.orelse)
+        if isinstance(e, ast.Subscript):
+            idx = e.slice.elts if isinstance(e.slice, ast.Tuple) else [e.slice]
+            if any(isinstance(i, (ast.List, ast.ListComp, ast.Compare, ast.Name)) for i in idx):
+                return set()
+            return roots(e.value)
+        if isinstance(e, ast.Attribute) and e.attr == "T":
+            return roots(e.value)
+        if isinstance(e, ast.Call) and isinstance(e.func, ast.Attribute) and e.func.attr in VIEW_METHODS:
+            return roots(e.func.value)
+        if isinstance(e, ast.Call) and ekey(e.func) in ("np.asarray", "numpy.asarray", "np.asanyarray", "np.atleast_1d") and e.args:
+            return roots(e.args[0])
+        return set()
+
+    nfun = 0
+    for fid in funcs:
+        fi = eng.fn(fid)
+        nfun += 1
+        params = set(fi.all_params)
+        alias = dict((p, {p}) for p in params)          # local -> parameters it may be a view of
+        for _ in range(4):
+            for node in eng.prog.own_nodes(fi):
+                if isinstance(node, ast.Assign) and len(node.targets) == 1 and isinstance(node.targets[0], ast.Name):
+                    src = set()
+                    for r in roots(node.value):
+                        src |= alias.get(r, set())
+                    if src:
+                        alias.setdefault(node.targets[0].id, set()).update(src)
+        # a name that is also re-bound to a fresh value somewhere is judged per store with reaching definitions
+        cfg = eng.cfg(fi)
+        hit = None
+        for n, d in cfg.g.nodes(data=True):
+            st = d["ast"]
+            if d["kind"] != "stmt":
+                continue
+            tgt = []
+            if isinstance(st, ast.Assign):
+                tgt = [t for t in st.targets if isinstance(t, ast.Subscript)]
+            elif isinstance(st, ast.AugAssign):
+                tgt = [st.target]
+            elif isinstance(st, ast.Expr) and isinstance(st.value, ast.Call) and isinstance(st.value.func, ast.Attribute) and st.value.func.attr in ("fill", "sort", "resize", "put", "itemset") \
+                    and isinstance(st.value.func.value, ast.Name):
+                tgt = [st.value.func.value]
+            for sub in ast.walk(st) if isinstance(st, (ast.Assign, ast.Expr, ast.AugAssign)) else []:
+                if isinstance(sub, ast.Call):
+                    for kw in sub.keywords:
+                        if kw.arg == "out" and isinstance(kw.value, ast.Name):
+                            tgt.append(kw.value)
+            for t in tgt:
+                root = t
+                while isinstance(root, (ast.Subscript, ast.Attribute)):
+                    root = root.value
+                if not isinstance(root, ast.Name) or root.id not in alias:
+                    continue
+                # which definitions of the local reach this store?  (a parameter name itself: the entry definition)
+                views = set()
+                for dn in cfg.defs_reaching(st, root.id):
+                    ds = cfg.ast_of(dn)
+                    if cfg.kind(dn) == "entry":
+                        views |= {root.id} & params
+                    elif isinstance(ds, ast.Assign) and len(ds.targets) == 1 and isinstance(ds.targets[0], ast.Name) and ds.targets[0].id == root.id:
+                        for r in roots(ds.value):
+                            views |= alias.get(r, set())
+                    elif isinstance(ds, ast.AugAssign):
+                        views |= alias.get(root.id, set())
+                if views and hit is None:
+                    hit = (st, root.id, sorted(views))
+        site = eng.where(fi)
+        if hit:
+            st, loc, views = hit
+            rep.bad(rule, eng.where(fi, st), "%s|modifies-its-argument|%s" % (fid, views[0]),
+                    "`%s` modifies `%s` in place, which is (a view of) the parameter `%s`: the caller's array changes behind its back" % (short(st, 50), loc, views[0]))
+        else:
+            rep.ok(rule, site, "%s does not modify any of its array arguments in place" % fi.qualname, nontrivial=False)
+    rep.require_count(rule, "step routines inspected", nfun, 8)
 
 
 def run(eng, rep):
@@ -397,3 +526,4 @@ def run(eng, rep):
     rule_mirror(eng, rep, 'C13-5.lower-and-upper-face-handling-are-reflections', ['trust_region.trsbox_linear'])
     rule_geometry_point_from_box_solver(eng, rep)
     rule_geometry_step_is_the_better_candidate(eng, rep)
+    rule_step_routines_do_not_modify_their_arguments(eng, rep)
